@@ -205,3 +205,37 @@ def random_dag(rng, n, m):
     used = sorted({v for e in E for v in e})
     edges = sorted([u, v] for u, v in E)
     return {"nodes": used, "edges": edges, "ew": [1] * len(edges), "nw": [1] * len(used), "proutes": [], "pweights": []}
+
+
+def bipartite_scc(p, q, extra_exit=False):
+    """s -> a -> t, a -> c, c -> d_i, d_i -> e_j (complete bipartite), e_j -> a: one big strongly connected component that is
+    entered through the single edge (a, c); a covering walk has to cross (a, c) once per bipartite edge (p*q times).
+    With extra_exit a second way out (c -> u -> t) adds a competing branch.  Generation only."""
+    E = [["s", "a"], ["a", "t"], ["a", "c"]]
+    ds, es = [f"d{i}" for i in range(p)], [f"e{j}" for j in range(q)]
+    E += [["c", d] for d in ds] + [[d, e] for d in ds for e in es] + [[e, "a"] for e in es]
+    nodes = ["s", "a", "t", "c"] + ds + es
+    if extra_exit:
+        E += [["c", "u"], ["u", "t"]]
+        nodes.append("u")
+    return {"nodes": nodes, "edges": sorted(E), "ew": [1] * len(E), "nw": [1] * len(nodes), "proutes": [], "pweights": []}
+
+
+def zeroed(u):
+    """the planted flow of u without its last planted route: edges / nodes only that route used carry flow 0 now.
+    None if u has a single planted route.  Pure instance composition."""
+    if len(u["proutes"]) < 2:
+        return None
+    routes, ws = u["proutes"][:-1], u["pweights"][:-1]
+    ef = {tuple(e): 0 for e in u["edges"]}
+    nf = {n: 0 for n in u["nodes"]}
+    for q, w in zip(routes, ws):
+        for a, b in zip(q[:-1], q[1:]):
+            ef[(a, b)] += w
+        for n in q:
+            nf[n] += w
+    v = dict(u)
+    v["proutes"], v["pweights"] = routes, ws
+    v["ew"] = [ef[tuple(e)] for e in u["edges"]]
+    v["nw"] = [nf[n] for n in u["nodes"]]
+    return v if 0 in v["ew"] else None
